@@ -65,6 +65,12 @@ def _layout(rng, allow_unlabeled=False, min_n=0):
         cls.sort()
     if allow_unlabeled and rng.random() < 0.3:
         cls = [(-1 if rng.random() < 0.2 else c) for c in cls]
+    if rng.random() < 0.12:
+        # the library's binary convention: two classes {0, 1} announced as class shape (1,) (see utils.class_counts, LabelSmoothingWrapper)
+        ncls = 1
+        cls = [rng.choice([0, 1, 1]) if c >= 0 else c for c in cls]
+        if style == "sorted":
+            cls.sort()
     return {"n": n, "ncls": ncls, "classes": cls}
 
 
@@ -93,7 +99,7 @@ def gen_cases(run):
         seed = rng.choice([0, 0, 1, 2 ** 31 - 1, 2 ** 32 - 1]) if rng.random() < 0.3 else rng.randrange(10 ** 6)
         spec = {"kind": k, "layout": lay, "seed": seed, "g": [rng.randrange(2 ** 31), rng.randrange(2 ** 31)]}
         if k == "classfilter":
-            pool = list(range(lay["ncls"]))
+            pool = list(range(2 if lay["ncls"] == 1 else lay["ncls"]))
             spec["sel"] = rng.sample(pool, rng.randint(0, len(pool)))
             spec["form"] = rng.choice(["valid", "invalid", "valid_names", "invalid_names"])
         elif k in ("percent", "percent_partition"):
@@ -136,7 +142,7 @@ def _CODES():
 def _leaf(lay, names=False):
     ds = Leaf(lay["n"], tag="L", classes=lay["classes"], n_classes=lay["ncls"])
     if names:
-        ds.class_names = [f"name{c}" for c in range(lay["ncls"])]
+        ds.class_names = [f"name{c}" for c in range(2 if lay["ncls"] == 1 else lay["ncls"])]
     return ds
 
 
@@ -198,7 +204,10 @@ def run_case(run, spec):
     k = spec["kind"]
     lay = spec["layout"]
     n, cls, ncls = lay["n"], lay["classes"], lay["ncls"]
-    run.cover(k, min(n, 3), _layout_class(lay))
+    run.cover(k, min(n, 3), _layout_class(lay), "binary-dim1" if ncls == 1 and 1 in cls else "multi")
+    dim1 = ncls == 1
+    if ncls == 1:
+        ncls = 2  # class shape (1,) announces a binary dataset with labels {0, 1}
     V = run.violation
     def ok_sel():
         run.count("selection_checked")
